@@ -72,6 +72,25 @@ def observe(spec, fit):
         out["tension"] = {}
         for be in fr.internal_big_edges:
             out["tension"].setdefault(tuple(sorted(be.own_cells)), []).append((canon(be.get_vertices_ids()), be.tension))
+        # the pressures are determined only when the internal interfaces link all cells that have one into a single group
+        # (theorem C04_connected_pressures_are_the_zero_sum_least_squares); otherwise the bordered matrix is singular
+        adj = {}
+        for be in fr.internal_big_edges:
+            if len(be.own_cells) == 2:
+                a_, b_ = be.own_cells
+                adj.setdefault(a_, set()).add(b_)
+                adj.setdefault(b_, set()).add(a_)
+        seen = set()
+        if adj:
+            start = next(iter(adj))
+            seen, stack = {start}, [start]
+            while stack:
+                u_ = stack.pop()
+                for w_ in adj[u_]:
+                    if w_ not in seen:
+                        seen.add(w_)
+                        stack.append(w_)
+        out["pressure_determined"] = bool(adj) and seen == set(adj)
         try:
             f.build_pressure_matrix(when=0)
             f.solve_pressure(when=0, method="lagrange_pressure")
@@ -134,7 +153,9 @@ def check_pair(res, base, rel, fit, exprs, label, kind):
                 break
         if bad:
             break
-    if A["pressure"] is not None and B["pressure"] is not None:
+    if A["pressure"] is not None and B["pressure"] is not None and not (A.get("pressure_determined") and B.get("pressure_determined")):
+        res.count("internal interfaces do not link the cells into one group: pressures not determined (comparison skipped)")
+    elif A["pressure"] is not None and B["pressure"] is not None:
         worst = max(abs(B["pressure"][cmap[c]] - p) for c, p in A["pressure"].items())
         sc = 1 + max(abs(p) for p in A["pressure"].values())
         if worst > max(200e-9, 100 * ttol) * sc:
